@@ -439,6 +439,15 @@ class ColorValue(Value):
                             raw.append(int(255 * item.value.value / 100))
                         check += 'P'
 
+                if len(raw) < 3:
+                    # e.g. function cut off by the end of the input
+                    self.wellformed = False
+                    self._log.error(
+                        'ColorValue has too few %s) parameters: %s'
+                        % (functiontype, check)
+                    )
+                    return
+
                 if HSL:
                     # convert to rgb
                     # h is 360 based (circle)
